@@ -287,6 +287,19 @@ func c14Copies(c *Ctx, a *sketchAnchors) {
 					}
 					continue
 				}
+				// a field filled with x.Copy() takes it from the receiver's SAME field (the positive store's copy is
+				// the copy's positive store)
+				if cv := stripConv(v); isMethodCall(cv, "Copy") && len(cv.Args) >= 1 {
+					src := cv.Args[0].unver()
+					root := src
+					for root.Op == "field" && len(root.Args) == 1 {
+						root = root.Args[0].unver()
+					}
+					if root.isParam(0) && src.Op == "field" && !termIsRecvPath(src, fld.path) {
+						ok = false
+						found = "filled with the copy of another field: " + v.Key()
+					}
+				}
 				// reference-typed field: everything reachable from it must be fresh
 				var origins []string
 				if v.V == nil {
